@@ -386,9 +386,15 @@ def config_strategy():
         if c["cls"] == "PeriodicDiskRevolve":
             c = C.tame_period(c)
         return c
+
+    def late(c):
+        # online classes: the driver may have requested 1-3 further Forward actions before finalize(n)
+        if c["cls"] in ("None", "SingleMemory", "SingleDisk", "TwoLevel"):
+            return st.sampled_from([0, 0, 1, 2, 3]).map(lambda k: dict(c, late=k) if k else c)
+        return st.just(c)
     names = ["Multistage"] * 4 + ["Mixed"] * 4 + ["TwoLevel"] * 4 + ["Revolve"] * 2 + ["DiskRevolve"] * 3 + ["PeriodicDiskRevolve"] * 2 + ["HRevolve"] * 4 + \
         ["SingleMemory", "SingleDisk", "None"]
-    return st.integers(0, len(names) - 1).flatmap(lambda i: S[names[i]]).map(small)
+    return st.integers(0, len(names) - 1).flatmap(lambda i: S[names[i]]).map(small).flatmap(late)
 
 
 _STATS = []
@@ -555,6 +561,47 @@ def _pair_sweep(job):
     return {"pairs": len(pairs), "fails": out}
 
 
+def obs_box(tier):
+    """Configs for the observer-interleaving sweep: the small offline box and every online class,
+    finalised at once and 1-3 Forward requests late."""
+    base = [c for c in pair_base("quick") if c["n"] <= (5 if tier == "quick" else 6)]
+    for n in (1, 2, 3, 5):
+        for late in (0, 1, 2, 3):
+            L = {"late": late} if late else {}
+            base.append(dict({"cls": "None", "n": n, "passes": 0}, **L))
+            base.append(dict({"cls": "SingleMemory", "n": n, "passes": 2}, **L))
+            base.append(dict({"cls": "SingleDisk", "move": False, "n": n, "passes": 2}, **L))
+            base.append(dict({"cls": "SingleDisk", "move": True, "n": n, "passes": 1}, **L))
+            for p, b in ((1, 0), (2, 1), (3, 2)):
+                base.append(dict({"cls": "TwoLevel", "period": p, "b": b, "storage": "RAM" if (p + n) % 2 else "DISK", "traj": "maximum", "n": n, "passes": 2}, **L))
+    return base
+
+
+def _obs_sweep(job):
+    """Structured generator: one schedule alone, all observers read after EVERY action, and after
+    exactly ONE action (each of the first 10 positions): a read must not change what comes next."""
+    cfgs = job
+    g = Golden()
+    out = []
+    n = 0
+    try:
+        for cfg in cfgs:
+            L = len(g.get(cfg))
+            hists = [[["create", cfg]] + [x for _ in range(min(L, 80)) for x in (["adv", 0, 1], ["obs", 0])] + [["adv", 0, 1000000]]]
+            hists.append([["create", cfg], ["obs", 0], ["adv", 0, 1000000]])
+            for pos in range(1, min(L, 10)):
+                hists.append([["create", cfg], ["adv", 0, pos], ["obs", 0], ["adv", 0, 1000000]])
+            for ops in hists:
+                n += 1
+                r = replay_ops(ops, g.get)
+                if r is not None:
+                    out.append({"ops": ops, "pred": r[0], "detail": r[1], "variant": r[2]})
+                    break
+    finally:
+        g.close()
+    return {"n": n, "fails": out}
+
+
 HASH_SEEDS = ("1", "4242", "99991")
 
 
@@ -673,6 +720,16 @@ def run(prop, args):
         for f in part["fails"]:
             rep.add_violation((f["variant"], f["pred"]), {"ops": f["ops"]}, f["detail"], kind="history")
     rep.evaluations += npairs
+    # observer-interleaving sweep
+    obox = obs_box(tier)
+    nobs = 0
+    for part in R.pmap(_obs_sweep, R.chunks(obox, max(1, len(obox) // 48 + 1)), chunksize=1):
+        nobs += part["n"]
+        for f in part["fails"]:
+            rep.add_violation((f["variant"], f["pred"]), {"ops": f["ops"]}, f["detail"], kind="history")
+    rep.evaluations += nobs
+    obs_ex = ({"box": "observer interleaving: every small offline config (n<=%d) and every online class (n in {1,2,3,5}, finalised 0-3 Forward requests late); all observers read after every action, and after exactly one action (positions 0..9)" % (5 if tier == "quick" else 6),
+                           "cases": nobs, "exhaustive": True})
     # interpreter-environment sweep: same config, different string-hash seeds
     ebase = pair_base(tier) + [dict(c, passes=2) for c in pair_base("quick") if c["cls"] == "TwoLevel"]
     eres = R.pmap(_env_sweep, R.chunks(ebase, max(1, len(ebase) // 16 + 1)), chunksize=1)
@@ -685,7 +742,7 @@ def run(prop, args):
         if (A["cls"] in SHARE_A or A["cls"] in SHARE_B):
             rep.nontrivial.add("pair:" + C.key(A) + "|" + C.key(B))
     rep.exhaustive = [{"box": "every ordered pair (A, B) of configs differing in exactly one parameter, n<=%d, units<=3, three orders of use (A then B; B before A; A, B, then A again), each in a pristine child" % (6 if tier == "quick" else 9),
-                       "cases": npairs, "exhaustive": True}]
+                       "cases": npairs, "exhaustive": True}, obs_ex]
     R.run_regress(rep, check_witness)
 
     def shrink(b, w):
